@@ -299,6 +299,16 @@ def gas_entries():
     E.append(BEntry("gas_rec", [("n", "felt252")], "felt252", "rec_sum(3, n)", None, tags=("gas",),
                     items="fn rec_sum(k: felt252, n: felt252) -> felt252 { if k == 0 { n } else { "
                           "rec_sum(k - 1, n + k) } }\n"))
+    E.append(BEntry("gas_bitwise_loop", [("x", "u128"), ("y", "u128")], "u128",
+                    "let mut acc = x; let mut i: u8 = 0; while i != 2 { acc = (acc & y) ^ (acc | 5); "
+                    "i += 1; }; acc", None, tags=("gas", "lin_only")))
+    E.append(BEntry("gas_poseidon_loop", [("x", "felt252")], "felt252",
+                    "let mut acc = x; let mut i: u8 = 0; while i != 2 { let (a, _, _) = "
+                    "core::poseidon::hades_permutation(acc, 1, 2); acc = a; i += 1; }; acc", None,
+                    tags=("gas", "lin_only")))
+    E.append(BEntry("gas_pedersen_loop", [("x", "felt252")], "felt252",
+                    "let mut acc = x; let mut i: u8 = 0; while i != 2 { acc = "
+                    "core::pedersen::pedersen(acc, 3); i += 1; }; acc", None, tags=("gas", "lin_only")))
     E.append(BEntry("gas_withdraw_all", [("x", "u8")], "u8",
                     "match core::gas::withdraw_gas_all(core::gas::get_builtin_costs()) { Some(_) => x, "
                     "None => 0 }", None, tags=("gas",)))
@@ -422,6 +432,24 @@ def fold_entries():
     return E
 
 
+def bigap_entries():
+    """Functions whose branches differ by a very large known ap change (call chain doubling per
+    level), so that branch_align has to pad by more than 2^15 / 2^16 cells."""
+    chain = "#[inline(never)]\nfn f0(x: felt252) -> felt252 { x + 1 }\n"
+    for n in range(1, 14):
+        chain += f"#[inline(never)]\nfn f{n}(x: felt252) -> felt252 {{ f{n - 1}(x); f{n - 1}(x) }}\n"
+    E = []
+    E.append(BEntry("bigap_12", [("c", "bool"), ("x", "felt252")], "felt252",
+                    "if c { f12(x) } else { x }", None, tags=("bigap",), items=chain))
+    E.append(BEntry("bigap_13", [("c", "bool"), ("x", "felt252")], "felt252",
+                    "if c { f13(x) } else { x }", None, tags=("bigap",)))
+    E.append(BEntry("bigap_13_10_8", [("c", "bool"), ("x", "felt252")], "felt252",
+                    "if c { f13(x); f10(x); f8(x) } else { x }", None, tags=("bigap",)))
+    E.append(BEntry("bigap_13_12", [("c", "bool"), ("x", "felt252")], "felt252",
+                    "if c { f13(x); f12(x) } else { x + 2 }", None, tags=("bigap",)))
+    return E
+
+
 def gen_entries():
     """C01/C05: seeded generated programs with reference semantics (gen.py)."""
     import os
@@ -439,7 +467,7 @@ def gen_entries():
 EXTRA_FAMILIES = {
     "bounded": bounded_entries, "plumb": plumbing_entries, "gas": gas_entries,
     "hash": hash_entries, "gen": gen_entries, "spec": specialization_entries,
-    "fold": fold_entries,
+    "fold": fold_entries, "bigap": bigap_entries,
 }
 import gen as _gen
 EXTRA_HEADERS = {"spec": SPEC_HEADER, "gen": _gen.PRELUDE, "bounded": BI_HEADER, "plumb": PLUMB_HEADER, "gas": GAS_HEADER, "hash": HASH_HEADER}
